@@ -295,6 +295,31 @@ def file_boundary_reclaim_behaviour(r, geom, bid, cfg):
     full = blk - PREFIX
     big, small, third = r.choice([("a", "b", "c"), ("b", "a", "c"), ("c", "a", "b")])
     ops = []
+    if r.random() < 0.4:
+        # variant: a fresh topic's FIRST operation is a batch of block-filling entries that starts in the last
+        # blocks of file 1 and ends in file 2; `big` holds the other blocks of file 1 and is consumed
+        nb = r.choice([1, 2])                       # blocks of file 1 taken by `big` before the batch
+        for _ in range(nb):
+            ops.append({"op": "append", "t": big, "id": ids.next(), "size": full - r.choice([0, 0, 1, 9])})
+        k = (bpf - nb) + r.choice([1, 1, 2])        # the batch crosses the file end
+        ops.append({"op": "batch", "t": third, "es": [[ids.next(), full - r.choice([0, 0, 7])] for _ in range(k)]})
+        # `big` rotates out of its last block of file 1 (sealed, unlocked) and is consumed completely
+        ops.append({"op": "append", "t": big, "id": ids.next(), "size": full})
+        if r.random() < 0.3:
+            ops.append({"op": "reopen", "i": 0, "proc": "same", "ro": True, "delay_ms": 0})
+        for _ in range(nb + 3):
+            ops.append(r.choice([{"op": "read", "t": big, "ckpt": True},
+                                 {"op": "bread", "t": big, "budget": r.choice([-1, 0, blk]), "ckpt": True, "off": -1}]))
+        ops.append({"op": "read", "t": big, "ckpt": True})
+        ops.append({"op": "read", "t": third, "ckpt": False})
+        for _ in range(k + 2):
+            ops.append(r.choice([{"op": "read", "t": third, "ckpt": True},
+                                 {"op": "bread", "t": third, "budget": r.choice([-1, blk]), "ckpt": True, "off": -1}]))
+        ops.append({"op": "read", "t": third, "ckpt": True})
+        c = dict(cfg)
+        c["topics"] = ["a", "b", "c"]
+        c["proj"] = True
+        return {"id": bid, "cfg": c, "ops": ops}
     # file 1: bpf-1 blocks of `big`, last block taken by `small`
     for _ in range(bpf - 1):
         ops.append({"op": "append", "t": big, "id": ids.next(), "size": full - r.choice([0, 0, 1, 9])})
